@@ -20,6 +20,9 @@ func (c *cache) Delete(addr oid.Address) error {
 }
 
 func (c *cache) delete(addr oid.Address) error {
+	l := c.lockAddr(addr)
+	defer l.Unlock()
+
 	err := c.fsTree.Delete(addr)
 	if err == nil {
 		storagelog.Write(c.log,
